@@ -11,7 +11,22 @@ par clang++ -std=c++17 -c $CF $REPO/igris/protocols/gstuff.cpp -o $BUILD/gstuff.
 par clang -c $CF $REPO/igris/protocols/gstuff_v1/gstuff.c -o $BUILD/gstuff_v1.o
 par clang -c $CF $REPO/igris/protocols/gstuff_v1/autorecv.c -o $BUILD/autorecv_v1.o
 par clang++ -std=c++17 -O2 -c -I$MC $MC/mc.cpp -o $BUILD/mc.o
+# re-entrancy run: the same bindings and library sources under ThreadSanitizer, two threads on the controlled scheduler
+# (sched.cpp and mc.cpp stay uninstrumented: TSan then sees only what the code under test does)
+T=$BUILD/tsan; mkdir -p $T
+TF="-O1 -g -fsanitize=thread -fno-omit-frame-pointer -I$REPO -I$MC -I$H"
+par g++ -std=c++17 -c $TF $H/c04_reentrancy.cpp -o $T/h.o
+par g++ -std=c++17 -c $TF -DGS_PUBLIC_ONLY $H/gs_bind_cfg.cpp -o $T/bind_cfg.o
+par g++ -std=c++17 -c $TF $H/gs_bind_legacy.cpp -o $T/bind_legacy.o
+par g++ -std=c++17 -c $TF $REPO/igris/protocols/gstuff.cpp -o $T/gstuff.o
+par gcc -c $TF $REPO/igris/protocols/gstuff_v1/gstuff.c -o $T/gstuff_v1.o
+par gcc -c $TF $REPO/igris/protocols/gstuff_v1/autorecv.c -o $T/autorecv_v1.o
+par g++ -std=c++17 -O2 -g -I$MC -c $MC/sched/sched.cpp -o $BUILD/sched.o
+par g++ -std=c++17 -O2 -I$MC -c $MC/mc.cpp -o $BUILD/mc_gcc.o
 parwait
+g++ -fsanitize=thread $T/h.o $T/bind_cfg.o $T/bind_legacy.o $T/gstuff.o $T/gstuff_v1.o $T/autorecv_v1.o $BUILD/sched.o $BUILD/mc_gcc.o \
+    -ldl -lpthread -o $BUILD/c04_tsan
 clang++ -fsanitize=address $BUILD/h.o $BUILD/bind_cfg.o $BUILD/bind_legacy.o $BUILD/gstuff.o $BUILD/gstuff_v1.o \
     $BUILD/autorecv_v1.o $BUILD/mc.o -o $BUILD/c04
 echo "roundtrip $BUILD/c04" > $BUILD/runs.txt
+echo "reentrancy $BUILD/c04_tsan" >> $BUILD/runs.txt
